@@ -37,6 +37,8 @@ def run(ctx, tier):
     ctx.rule("S1", "state switch exhaustive: every assigned state has a case")
     ctx.rule("S3", "the transition relation of the parser's state machine (state assignments reachable in each case, "
                    "fall-through included) equals the Standard's")
+    ctx.rule("S4", "in each state of the parser the set of URL components that the state's code sets equals the set the "
+                   "Standard's state sets (both storing instantiations)")
     ctx.rule("S2", "direct failure exits of the parser fail under the flags the Standard names (atSignSeen for the empty authority)")
     ctx.rule("T1c", "every caller of checkers::is_ipv4 passes lower-cased data (its documented precondition): a shortcut "
                     "deciding 'ends in a number' on raw bytes disagrees with the general path on upper-case hex labels")
@@ -48,6 +50,8 @@ def run(ctx, tier):
         check_fast_path(ctx, fxs[name])
         SM.check_switch_shape(ctx, fxs[name], "S1")
         SM.check_transitions(ctx, fxs[name], "S3")
+        from rules import c04
+        c04.check_state_writes_vs_standard(ctx, fxs[name], "S4")
         from rules import c01_failctx
         c01_failctx.check(ctx, fxs[name], "S2")
         from rules import lowercase
